@@ -79,7 +79,7 @@ DOMAIN_TEXT = ["plain", "with space", "ünïcödé-θ", "a/b", "MiXeD Case", "x"
 
 def domain_metadata(r, fmt):
     out = {}
-    keys = ["user", "date", "lab", "comment", "project", "machine", "activation_temperature", "note", "Ключ", "iso_ref", "data_source", "model_from", "branch_note"]
+    keys = ["user", "date", "lab", "comment", "project", "machine", "activation_temperature", "note", "Ключ", "iso_ref", "data_source", "model_from", "branch_note", "raw_material_source", "ref_material_id", "x_adsorbate_lot"]
     if fmt == "aif":
         keys.remove("Ключ")  # CIF data names are restricted to printable ASCII
     for k in r.sample(keys, r.randint(0, 6)):
@@ -370,6 +370,10 @@ def _run_model(case, ctx):
         lo, hi = GM.pressure_window(name, P)
         rng = dict(pressure_range=(float("%.8g" % (hi * 0.01)), float("%.8g" % (hi * 0.8))), loading_range=(0.05, 2.5))
     iso = None
+    # a model may describe the desorption branch
+    brkw = {"branch": "des"} if case["seed"] % 4 == 1 else {}
+    if brkw:
+        ctx.count("models", fmt + "/desorption-branch")
     if case["seed"] % 3 == 0 and name in GM.WELL_POSED_FIT:
         # a model fitted from data (parameters, ranges and rmse are whatever the fit produced: numpy scalars, many digits)
         Pf = GM.random_params(name, r, typed=False)
@@ -378,7 +382,7 @@ def _run_model(case, ctx):
         ls = [float(numpy.asarray(m0.loading(x)).ravel()[0]) for x in ps]
         if all(math.isfinite(x) and x > 0 for x in ls) and len(set(ls)) >= 5:
             try:
-                iso = pygaps.ModelIsotherm(pressure=ps, loading=ls, model=name, material=copy.deepcopy(mat), adsorbate=ads_name, temperature=Tst, **units, **copy.deepcopy(meta))
+                iso = pygaps.ModelIsotherm(pressure=ps, loading=ls, model=name, material=copy.deepcopy(mat), adsorbate=ads_name, temperature=Tst, **brkw, **units, **copy.deepcopy(meta))
                 P = dict(iso.model.params)
                 rng = dict(pressure_range=iso.model.pressure_range, loading_range=iso.model.loading_range)
                 ctx.count("models", fmt + "/fitted")
@@ -386,7 +390,7 @@ def _run_model(case, ctx):
                 iso = None
     if iso is None:
         model = GM.make_model(name, P, rmse=round(r.uniform(0.001, 0.2), 6), temperature=T, **rng)
-        iso = pygaps.ModelIsotherm(model=model, material=copy.deepcopy(mat), adsorbate=ads_name, temperature=Tst, **units, **copy.deepcopy(meta))
+        iso = pygaps.ModelIsotherm(model=model, material=copy.deepcopy(mat), adsorbate=ads_name, temperature=Tst, **brkw, **units, **copy.deepcopy(meta))
     info = {"model": name, "params": P, "units": dict(iso.units), "meta": meta, "target": case["target"], "ranges": {k: [float(x) for x in v] for k, v in rng.items()}}
     st, back, stage = _export_import(fmt, iso, case["target"], "%s-m%d" % (fmt, case["seed"]), sepkw=_sep(case, ctx))
     label = "model"
@@ -417,6 +421,9 @@ def _run_model(case, ctx):
         rng_ok = False
     if not rng_ok:
         ctx.violation("%s/model/ranges" % fmt, "model ranges changed", a=[ma.pressure_range, ma.loading_range], b=[mb.pressure_range, mb.loading_range])
+        ok = False
+    if iso.branch != back.branch:
+        ctx.violation("%s/model/branch" % fmt, "the branch the model describes changed", a=iso.branch, b=back.branch)
         ok = False
     rmse_same_type = type(mb.rmse) in (float, numpy.float64) or isinstance(mb.rmse, float)
     if ok and not rmse_same_type:
